@@ -653,6 +653,57 @@ def post_find_rule(rep, fn):
     return n
 
 
+NUM_PARSERS = ("ustrh2u", "strh2u", "ustr2u", "str2u", "ustr2s", "str2s", "strtoul", "strtoull", "strtol", "strtoll", "atoi", "atol")
+
+
+def parsed_addend_rule(rep, fn):
+    """R-WRAP: a number taken from the input by a text-to-number routine can be anything up to the type's maximum.  Added to a
+    pointer first and compared with the end afterwards (`p = q + n; if (p > end)`), a huge n wraps the pointer past the end
+    of the address space and the test passes.  Every pointer addition of such a value is dominated by a relational
+    comparison in which the value itself (not the sum) is compared with a size."""
+    n = 0
+    parsed = {}
+    for pos, root, x, ps in fn.nodes():
+        if x.get("k") == "bin" and x["op"] == "=":
+            y = core.strip_casts(x["y"])
+            l = core.strip_casts(x["x"])
+            if y is not None and y.get("k") == "call" and (y.get("fn") or "").startswith(NUM_PARSERS) and l.get("k") == "ref":
+                parsed[l["id"]] = l["n"]
+    if not parsed:
+        return 0
+    for pos, root, x, ps in fn.nodes():
+        tgt = None
+        if x.get("k") == "bin" and x["op"] in ("+", "+=") and "t" in x and fn.unit.type(x["t"])["k"] == "ptr":
+            ids = core.ref_ids(x["y"]) | (core.ref_ids(x["x"]) if x["op"] == "+" else set())
+            hit = [i for i in ids if i in parsed]
+            if hit and not (ps and ps[-1].get("k") == "bin" and ps[-1]["op"] == "+" and "t" in ps[-1] and fn.unit.type(ps[-1]["t"])["k"] == "ptr"):
+                tgt = hit[0]
+        if tgt is None:
+            continue
+        n += 1
+        guarded = False
+        for bid in fn.reachable_blocks():
+            c = fn.blocks[bid].cond
+            if c is None or bid == pos[0] and False:
+                continue
+            if not fn.dominates(bid, pos[0]) or bid == pos[0]:
+                continue
+            for y, _ in walk(c):
+                if y.get("k") == "bin" and y["op"] in ("<", ">", "<=", ">="):
+                    for side in (y["x"], y["y"]):
+                        s0 = core.strip_casts(side)
+                        if s0 is not None and s0.get("k") == "ref" and s0.get("id") == tgt:
+                            guarded = True
+        inst = "parsed-addend:%s#%d" % (parsed[tgt], n)
+        desc = "%s: the parsed number '%s' is compared with a size before it is added to a pointer (line %s)" % (fn.name, parsed[tgt], x.get("ln"))
+        if guarded:
+            rep.proved("R-WRAP", fn, inst, desc, "", x.get("ln"))
+        else:
+            rep.violated("R-WRAP", fn, inst, desc, "no dominating relational test of '%s' itself: a value near the type's maximum wraps the "
+                         "pointer, and a later test of the sum against the end passes" % parsed[tgt], x.get("ln"))
+    return n
+
+
 def stale_remaining_rule(rep, fn):
     """`left = end - cur` ties a remaining-size variable to a cursor.  Wherever the cursor is given a new value afterwards
     (assignment, or its address handed to a callee), the same block also updates `left` - otherwise the loop that follows
@@ -768,6 +819,7 @@ def run_scope(rep, tier, us, exclude=(), only=None, budget_quick=45, extra_rules
             stale_end_rule(rep, fn)
             r_outdef.check(rep, fn)
             post_find_rule(rep, fn)
+            parsed_addend_rule(rep, fn)
             for r in extra_rules:
                 r(rep, fn)
     return nfn, total
